@@ -13,6 +13,9 @@ func ribCfgFor(r *rand.Rand, tier string) *RibCfg {
 	if tier == "thorough" {
 		cfg.Steps = 60
 	}
+	if r.IntN(12) == 0 {
+		cfg.NoCheck = true
+	}
 	if r.IntN(2) == 0 {
 		// a denser universe: more key reuse
 		cfg.Pools.NIs = cfg.Pools.NIs[:2]
@@ -35,7 +38,7 @@ func ribCase(name string, cfg *RibCfg, steps []Step) *CaseSpec {
 		}
 		return RunRibHistory(name, cfg, sub)
 	}, Inputs: func() []string {
-		o := []string{fmt.Sprintf("rib.new %s fwd=%s", S(cfg.Pools.NIs[0]), B(cfg.Fwd))}
+		o := []string{fmt.Sprintf("rib.new %s fwd=%s check=%s", S(cfg.Pools.NIs[0]), B(cfg.Fwd), B(!cfg.NoCheck))}
 		for _, s := range steps {
 			switch s.Kind {
 			case "add", "del":
